@@ -10,12 +10,12 @@ PROBES = ['EpochConvention', 'EpochGap', 'HWFallback', 'ExpandLagging']
 FIXED_PROBES = ['StaleIsrOffset']
 
 
-def to_stimulus(beh, bid):
+def to_stimulus(beh, bid, cfg=None):
     steps = []
     for st in beh[1:]:
         a = dict(st['last'])
         steps.append(a)
-    return {'id': bid, 'cfg': {'minISR': 2, 'fetchMax': 2}, 'steps': steps}
+    return {'id': bid, 'cfg': cfg or {'minISR': 2, 'fetchMax': 2, 'rf': 3}, 'steps': steps}
 
 
 def execute(behaviours, d, timeout=1500):
@@ -31,9 +31,9 @@ def execute(behaviours, d, timeout=1500):
     return trace
 
 
-def judge(rep, behaviours, trace, prop, names):
+def judge(rep, behaviours, trace, prop, names, trace_cfg='Trace_Replication.cfg'):
     """names: the P-level checks that belong to this property"""
-    res = core.tlc_trace('Trace_Replication.tla', 'Trace_Replication.cfg', trace, timeout=1800)
+    res = core.tlc_trace('Trace_Replication.tla', trace_cfg, trace, timeout=1800)
     by_id = {b['id']: b for b in behaviours}
     bad, drifting = {}, []
     for f in res['fails']:
@@ -74,42 +74,60 @@ def probe_stimuli(rep, first_id=9001):
     return out
 
 
-def run(rep, tier, seed, replay, prop, names, relevant, rule):
+def run(rep, tier, seed, replay, prop, names, relevant, rule, rf1=False, mc_quick='MC_Replication.cfg'):
     if replay:
         behaviours = replay['replay']['behaviours']
-        with core.scratch(prop.lower()) as d:
-            trace = execute(behaviours, d)
-            judge(rep, behaviours, trace, prop, names)
+        for rf, tcfg in ((3, 'Trace_Replication.cfg'), (1, 'Trace_Replication_rf1.cfg')):
+            bs = [b for b in behaviours if b['cfg'].get('rf', 3) == rf]
+            if not bs:
+                continue
+            with core.scratch(prop.lower()) as d:
+                trace = execute(bs, d)
+                judge(rep, bs, trace, prop, names, tcfg)
         rep.cov['rule'] = 'replay of a saved stimulus'
         rep.cov['samples'] = behaviours[:1]
         rep.cov['evaluations'] = len(behaviours)
         return
-    res = core.tlc_check('MC_Replication.tla', 'MC_Replication.cfg' if tier == 'quick' else 'MC_Replication_thorough.cfg',
-                         timeout=7200, coverage=False)
-    rep.add_design('MC_Replication', res)
+    designs = [mc_quick] if tier == 'quick' else ['MC_Replication_thorough.cfg', 'MC_Replication_alive.cfg',
+                                                   'MC_Replication_acks.cfg', 'MC_Replication_fallback.cfg']
+    for cfg in designs:
+        res = core.tlc_check('MC_Replication.tla', cfg, timeout=3 * 3600, coverage=False)
+        rep.add_design(cfg, res)
     behaviours = probe_stimuli(rep)
     import json
     with open(os.path.join(core.SPEC, 'scenarios', 'replication_regressions.json')) as fh:
         behaviours += json.load(fh)['behaviours']
     if tier == 'thorough':
         for tag in FIXED_PROBES:
-            names, beh = core.tlc_counterexample('MC_Replication.tla', 'Probe_Replication_%s.cfg' % tag, timeout=3600)
-            rep.cov.setdefault('defect_probes', []).append({'tag': tag, 'reachable': bool(names), 'fixed': True})
+            names_, beh = core.tlc_counterexample('MC_Replication.tla', 'Probe_Replication_%s.cfg' % tag, timeout=3600)
+            rep.cov.setdefault('defect_probes', []).append({'tag': tag, 'reachable': bool(names_), 'fixed': True})
             if beh:
                 # the repaired defect is reachable again in the model: replay on the real code decides
                 behaviours.append(to_stimulus(beh, 9200))
-    num = 60 if tier == 'quick' else 1500
+    num = 60 if tier == 'quick' else 1200
     sims = core.tlc_simulate('MC_Replication.tla', 'Sim_Replication.cfg', num, 16, seed)
     behaviours += [to_stimulus(b, i + 1) for i, b in enumerate(sims) if len(b) > 1]
     with core.scratch(prop.lower()) as d:
-        trace = execute(behaviours, d, timeout=3000)
+        trace = execute(behaviours, d, timeout=6000)
         tr = judge(rep, behaviours, trace, prop, names)
+    lines = tr['validated']
+    if rf1:
+        # replication factor 1 (fast path): one replica, min ISR 1
+        res = core.tlc_check('MC_Replication.tla', 'MC_Replication_rf1.cfg', timeout=1800)
+        rep.add_design('MC_Replication_rf1.cfg', res)
+        sims = core.tlc_simulate('MC_Replication.tla', 'Sim_Replication_rf1.cfg', 40 if tier == 'quick' else 400, 14, seed + 1)
+        b1 = [to_stimulus(b, 5000 + i, {'minISR': 1, 'fetchMax': 2, 'rf': 1}) for i, b in enumerate(sims) if len(b) > 1]
+        with core.scratch(prop.lower()) as d:
+            trace = execute(b1, d, timeout=3000)
+            tr1 = judge(rep, b1, trace, prop, names, 'Trace_Replication_rf1.cfg')
+        behaviours += b1
+        lines += tr1['validated']
     rep.cov['traces_validated_against_impl'] = len(behaviours)
-    rep.cov['trace_lines_validated'] = tr['validated']
+    rep.cov['trace_lines_validated'] = lines
     rep.cov['evaluations'] = len(behaviours)
     rep.cov['distinct_nontrivial'] = len({core.sha(b['steps']) for b in behaviours if relevant(b)})
-    rep.cov['rule'] = ('behaviours = TLC counterexamples of the known-defect probes + seeded TLC simulation of '
-                       'MC_Replication (Sim_Replication.cfg); ' + rule + '; distinct by hash of the step list')
+    rep.cov['rule'] = ('behaviours = TLC counterexamples of the known-defect probes + regression scenarios of fixed defects + '
+                       'seeded TLC simulation of MC_Replication (Sim_Replication*.cfg); ' + rule + '; distinct by hash of the step list')
     rep.cov['samples'] = behaviours[:2]
     rep.assumptions += ['controller decisions played by the harness (Raft trusted)', 'NATS delivery trusted',
                         'metadata ops applied to all live replicas in one step']
